@@ -494,7 +494,7 @@ func depthOf(qs []*Q) int {
 }
 
 func TestCheck(t *testing.T) {
-	rt.Rapid(t, "histories", rt.PerShard(rt.N(60000, 1500000)), func(t *rapid.T) {
+	rt.Rapid(t, "histories", rt.PerShard(rt.N(60000, 800000)), func(t *rapid.T) {
 		c := &Case{Spec: genStruct(t, 1), Active: rt.ActiveList()}
 		nq := rapid.IntRange(1, 5).Draw(t, "nq")
 		c.Queries = append(c.Queries, nil)
